@@ -17,7 +17,9 @@ from .common import Check, lean_driver, quiet_naunet, silenced, tier_and_seed
 
 quiet_naunet()
 
-C14_THEOREMS = ["Naunet.C14.run_inv", "Naunet.C14.reachable_inv", "Naunet.C14.step_inv", "Naunet.C14.species_eq",
+C14_THEOREMS = ["Naunet.C14.appendDepletion_inv", "Naunet.C14.appendDesorption_inv", "Naunet.C14.appendDesorption_held",
+                "Naunet.C14.appendDepletion_held", "Naunet.C14.desorption_exact", "Naunet.C14.depletion_exact", "Naunet.C14.extend_inv",
+                "Naunet.C14.run_inv", "Naunet.C14.reachable_inv", "Naunet.C14.step_inv", "Naunet.C14.species_eq",
                 "Naunet.C14.source_sink_eq", "Naunet.C14.setAllowed_eq_construct", "Naunet.C14.foldl_add_held"]
 C15_THEOREMS = ["Naunet.C15.dup_iff_earlier_equal", "Naunet.C15.dupIdx_iff", "Naunet.C15.dupIdx_sorted",
                 "Naunet.C15.remove_dups_one_representative", "Naunet.C15.dedup_spec", "Naunet.C15.key_isEquiv",
@@ -152,7 +154,11 @@ class Gen14:
                 return ("add", self.reac())
             return (k, rng.randrange(n))
         if k == "removeIdxs":
-            return (k, sorted(rng.sample(range(n), rng.randint(0, min(n, 3)))) if n else [])
+            idxs = sorted(rng.sample(range(n), rng.randint(0, min(n, 3)))) if n else []
+            if idxs and rng.random() < 0.4:       # positions collected from several searches: unordered, one of them found twice
+                idxs = idxs + [rng.choice(idxs)]
+                rng.shuffle(idxs)
+            return (k, idxs)
         if k == "removeInst":
             if not everything:
                 return ("add", self.reac())
@@ -345,6 +351,7 @@ def check_extend_cli(chk):
     rng = chk.rng
     app = Application()
     ncases = 6 if chk.tier == "quick" else 40
+    mreqs, mpend = [], []
     for n in range(ncases):
         setup_species()
         from naunet.species import Species
@@ -365,6 +372,18 @@ def check_extend_cli(chk):
             twin.idx = max(r.idx for r in reacs) + 1
             reacs.append(twin)
             chk.hist["extend-near-duplicate"] += 1
+        # a file that already holds ices, a charged one among them: desorption returns each ice to *its* gas-phase species
+        with_ices = n == 2 or rng.random() < 0.25
+        if with_ices:
+            h3o, h2o, co, hco = [("H", 3), ("O", 1)], [("H", 2), ("O", 1)], [("C", 1), ("O", 1)], [("H", 1), ("C", 1), ("O", 1)]
+            nxt = max(r.idx for r in reacs) + 1
+            extra = [netgen.AReac([netgen.mk(h3o, 1, ice=True), netgen.electron("e-")], [netgen.mk(h2o, 0, ice=True), netgen.mk([("H", 1)])]),
+                     netgen.AReac([netgen.mk(co, 0, ice=True), netgen.mk([("H", 1)], 1)], [netgen.mk(hco, 1, ice=True)]),
+                     netgen.AReac([netgen.mk(hco, 1)], [netgen.mk(hco, 1, ice=True)])]
+            for k_, r_ in enumerate(extra):
+                r_.idx = nxt + k_
+            reacs += extra
+            chk.hist["extend-input-with-ices"] += 1
         d = chk.scratch / f"extend{n}"
         d.mkdir(parents=True, exist_ok=True)
         (d / "naunet_config.toml").write_text('[chemistry]\n[chemistry.symbol]\ngrain = "GRAIN"\nsurface = "#"\nbulk = "@"\n')
@@ -387,6 +406,14 @@ def check_extend_cli(chk):
         if n == 0:      # depletion followed by desorption of the species it created, always
             deplete, desorb, keep, remove = True, ["thermal", "cosmic-ray"], [], []
             args = "in.naunet out.naunet --append-depletion" + (" --remove-duplicate" if dedup else "")
+        if n == 3:      # two species removed that occur together in one reaction (its position is found twice)
+            both = next(([a_.name, b_.name] for r in reacs for a_ in r.re + r.pr for b_ in r.re + r.pr if a_.name != b_.name), None)
+            if both:
+                deplete, desorb, keep, remove = False, [], [], both
+                args = "in.naunet out.naunet --remove-species=" + ",".join(both) + (" --remove-duplicate" if dedup else "")
+        if n == 2:      # ices in the input, every desorption option
+            deplete, desorb, keep, remove = rng.random() < 0.5, ["thermal", "photon", "cosmic-ray"], [], []
+            args = "in.naunet out.naunet" + (" --remove-duplicate" if dedup else "") + (" --append-depletion" if deplete else "")
         if n == 1:      # de-duplication alone, on a file that holds a near-duplicate pair
             deplete, desorb, keep, remove, dedup = False, [], [], [], True
             args = "in.naunet out.naunet --remove-duplicate"
@@ -425,7 +452,7 @@ def check_extend_cli(chk):
         want = [(tuple(sorted(r["re"])), tuple(sorted(r["pr"]))) for r in cur]
         if deplete:
             sp = sorted({s for r in cur for s in r["re"] + r["pr"]})
-            want += [((s,), ("#" + s,)) for s in sp if not s.endswith(("+", "-"))]
+            want += [((s,), ("#" + s,)) for s in sp if not s.endswith(("+", "-")) and not s.startswith("#")]
         # each desorption option returns every surface species present at that point (also the ones depletion just created)
         surface = sorted({s for re_, pr_ in want for s in re_ + pr_ if s.startswith("#")})
         for o in desorb:
@@ -445,6 +472,48 @@ def check_extend_cli(chk):
                           f"`naunet extend {args}` wrote reactions that differ from the edits requested", args=args,
                           missing=[list(map(list, x)) for x in (Counter(want) - Counter(got))][:5],
                           unexpected=[list(map(list, x)) for x in (Counter(got) - Counter(want))][:5])
+            continue
+        # ---- the Lean model of the command (`Net.extend`) on the same input: species as identity numbers, their attributes as the
+        #      command reads them (neutral gas-phase, surface, the ice / gas-phase counterpart)
+        names0 = sorted({s.name for r in reacs for s in r.re + r.pr})
+        allnames = list(names0)
+        for nm in names0:
+            for extra_nm in (("#" + nm) if not nm.startswith("#") else nm[1:],):
+                if extra_nm not in allnames:
+                    allnames.append(extra_nm)
+        ident = {nm: i for i, nm in enumerate(allnames)}
+        charged = lambda nm: nm.endswith(("+", "-"))
+        classes = {}
+        mreqs.append({"cmd": "extend",
+                      "reactions": [[i, [ident[s.name] for s in r.re], [ident[s.name] for s in r.pr],
+                                     classes.setdefault((tuple(sorted(s.name for s in r.re)), tuple(sorted(s.name for s in r.pr)),
+                                                         r.tmin, r.tmax, r.rtype), len(classes) + 1)] for i, r in enumerate(reacs)],
+                      "neutral": [ident[nm] for nm in allnames if not nm.startswith("#") and not charged(nm)],
+                      "surface": [ident[nm] for nm in allnames if nm.startswith("#")],
+                      "iceOf": [[ident[nm], ident["#" + nm]] for nm in allnames if not nm.startswith("#") and "#" + nm in ident],
+                      "gasOf": [[ident[nm], ident[nm[1:]]] for nm in allnames if nm.startswith("#") and nm[1:] in ident],
+                      "keep": [ident[x] for x in keep] if keep else None, "remove": [ident[x] for x in remove],
+                      "dedup": bool(dedup), "deplete": bool(deplete),
+                      "desorb": [{"thermal": 201, "photon": 203, "cosmic-ray": 202}[o] for o in desorb]})
+        mpend.append((args, allnames, got))
+    if getattr(chk, "lean_ok", False) and mreqs:
+        try:
+            answers = lean_driver(mreqs)
+        except Exception as e:
+            chk.corr_break("driver", None, None, str(e)[:400])
+            answers = []
+        for (args, allnames, got), ans in zip(mpend, answers):
+            if "error" in ans:
+                chk.corr_break("extend-model", {"args": args}, ans, None)
+                continue
+            mh = [(tuple(sorted(allnames[i] for i in re_)), tuple(sorted(allnames[i] for i in pr_))) for re_, pr_ in ans["held"]]
+            if Counter(mh) != Counter(got):
+                chk.corr_break("extend-model", {"args": args},
+                               {"only_in_model": [list(map(list, x)) for x in (Counter(mh) - Counter(got))][:5]},
+                               {"only_in_output": [list(map(list, x)) for x in (Counter(got) - Counter(mh))][:5]})
+            else:
+                chk.traces += 1
+                chk.hist["extend-model-compared"] += 1
 
 
 # ------------------------------------------------------------------------------------------- C15
@@ -675,6 +744,33 @@ def run_c15(argv):
                 items.append([c, (0 if r["type"] == 999 else r["type"]) if mode is None else 1])
             reqs.append({"cmd": "dup", "items": items})
             pend.append((show, mode, dupidx, first_idx, kept))
+        # asked again after the reactions were edited in place (a repeat given its own temperature window, a reaction replaced by
+        # another one): each report describes the list as it is at the time of the call
+        if not any(r["type"] == 999 for r in lst) and len(lst) >= 2 and not from_file and not mixed:
+            lst2 = [dict(r) for r in lst]
+            with silenced():
+                base_dup = net.find_duplicate_reaction(mode=None)[1]
+            victim = base_dup[0] if base_dup else rng.randrange(len(lst2))
+            objs_ = net.reaction_list
+            objs_[victim].temp_min, objs_[victim].temp_max = 7777.0, 8888.0
+            lst2[victim]["tmin"], lst2[victim]["tmax"] = 7777.0, 8888.0
+            other = rng.choice([i for i in range(len(lst2)) if i != victim])
+            src = lst2[(other + 1) % len(lst2)] if (other + 1) % len(lst2) != victim else lst2[other]
+            objs_[other] = Reaction(list(src["re"]), list(src["pr"]), src["tmin"], src["tmax"], 1e-10, 0.0, 0.0, RT(src["type"]), other)
+            lst2[other] = dict(src)
+            show2 = [(" + ".join(r["re"]) + " -> " + " + ".join(r["pr"]), r["tmin"], r["tmax"], r["type"]) for r in lst2]
+            for mode in (None, "brief", "minimal", "short"):
+                with silenced():
+                    _, dupidx2, first2 = net.find_duplicate_reaction(mode=mode)
+                want2 = [i for i in range(len(lst2)) if any(pair_equiv(lst2[j], lst2[i], mode) for j in range(i))]
+                chk.count((n, "edited", str(mode)), nontrivial=bool(want2))
+                chk.hist["asked-again-after-in-place-edit"] += 1
+                if dupidx2 != want2 and (dupidx2, [r.idxfromfile for r in first2]) != dict_semantics(lst2, mode):
+                    chk.violation({"kind": "stale-duplicate-report", "mode": str(mode)},
+                                  f"mode {mode}: after a reaction got its own temperature window and another was replaced in place, the "
+                                  f"search reports {dupidx2}; equivalent-to-earlier are {want2}", input=show2[:20],
+                                  before_the_edits=show[:20], edited={"window_of": victim, "replaced": other})
+                    break
         # the equality and the hash key themselves, pair by pair, against the Lean model (`ReqEq.eqR`, `ReqEq.hashKey`)
         if getattr(chk, "lean_ok", False) and len(lst) >= 2 and len(eq_reqs) < (40 if tier == "quick" else 400):
             objs = net.reaction_list
